@@ -31,6 +31,9 @@ pub fn si_table() -> Vec<(&'static str, PhysicalQuantity, f64, f64)> {
         ("day", Time, 86400.0, 0.0),
         ("celsius", Temperature, 1.0, 273.15),
         ("fahrenheit", Temperature, 5.0 / 9.0, 459.67),
+        // only present in the layered converter of this check
+        ("kelvin", Temperature, 1.0, 0.0),
+        ("rankine", Temperature, 5.0 / 9.0, 0.0),
     ];
     for (base, q) in [("liter", Volume), ("meter", Length), ("gram", Mass)] {
         for (p, f) in [("kilo", 1e3), ("hecto", 1e2), ("deca", 1e1), ("", 1.0), ("deci", 1e-1), ("centi", 1e-2), ("milli", 1e-3)] {
@@ -79,6 +82,80 @@ fn spanish_converter() -> Option<Converter> {
     let src = std::fs::read_to_string("/repo/units/spanish.toml").ok()?;
     let layer: cooklang::convert::UnitsFile = toml::from_str(&src).ok()?;
     cooklang::convert::ConverterBuilder::new().with_units_file(cooklang::convert::UnitsFile::bundled()).ok()?.with_units_file(layer).ok()?.finish().ok()
+}
+
+/// bundled units + a layer that adds units lying on the scale of an existing unit (same ratio, other offset)
+fn extra_units_converter() -> Option<Converter> {
+    let layer: cooklang::convert::UnitsFile = toml::from_str(
+        "[[quantity]]\nquantity = \"temperature\"\n[quantity.units]\nmetric = [ { names = [\"kelvin\"], symbols = [\"K\"], ratio = 1, difference = 0 } ]\nimperial = [ { names = [\"rankine\"], symbols = [\"R\"], ratio = 0.55555555556, difference = 0 } ]\n",
+    )
+    .ok()?;
+    cooklang::convert::ConverterBuilder::new().with_units_file(cooklang::convert::UnitsFile::bundled()).ok()?.with_units_file(layer).ok()?.finish().ok()
+}
+
+/// bundled units + an extend-only layer (same number of units, same keys, other ratios)
+fn reratio_converter() -> Option<Converter> {
+    let layer: cooklang::convert::UnitsFile = toml::from_str("[extend.units]\ncup = { ratio = 0.25 }\nlb = { ratio = 500 }\nin = { ratio = 0.025 }\n").ok()?;
+    cooklang::convert::ConverterBuilder::new().with_units_file(cooklang::convert::UnitsFile::bundled()).ok()?.with_units_file(layer).ok()?.finish().ok()
+}
+
+/// the same key looked up alternately on two converters that give it different meanings:
+/// each answer must follow the converter's own unit table
+fn check_alternation(a: &Converter, b: &Converter, out: &mut Vec<Violation>, local: &mut Local) {
+    let own = |c: &Converter, key: &str| -> Option<(f64, f64, PhysicalQuantity)> { c.all_units().find(|u| keys(u).iter().any(|k| k == key)).map(|u| (u.ratio, u.difference, u.physical_quantity)) };
+    let all_keys: Vec<String> = a.all_units().flat_map(|u| keys(u)).collect();
+    for key in &all_keys {
+        let Some((_, _, q)) = own(a, key) else { continue };
+        if q == PhysicalQuantity::Temperature {
+            continue;
+        }
+        let target = match q {
+            PhysicalQuantity::Volume => "ml",
+            PhysicalQuantity::Mass => "g",
+            PhysicalQuantity::Length => "cm",
+            PhysicalQuantity::Time => "s",
+            PhysicalQuantity::Temperature => "C",
+        };
+        // nothing but lookups of this one key, alternating between the converters
+        for (round, conv) in [a, b, a, b, b, a].into_iter().enumerate() {
+            let Some((rf, df, _)) = own(conv, key) else { continue };
+            local.evaluations += 1;
+            let qv: ScaledQuantity = Quantity::new(Value::Number(Number::Regular(2.0)), Some(key.clone()));
+            let got = qv.unit_info(conv).map(|u| (u.ratio, u.difference));
+            let direct = conv.find_unit(key).map(|u| (u.ratio, u.difference));
+            if got != Some((rf, df)) || direct != Some((rf, df)) {
+                out.push(Violation::new(
+                    "a key looked up on one converter is answered with another converter's unit",
+                    format!("round {round}: key {key:?} on the {} converter resolves to (ratio, difference) {got:?} / {direct:?}, its own unit table has {:?}", if std::ptr::eq(conv, a) { "bundled" } else { "re-ratioed" }, (rf, df)),
+                    json!({"kind": "alternation", "key": key}),
+                ));
+                return;
+            }
+        }
+        for (round, conv) in [a, b, a, b, b, a].into_iter().enumerate() {
+            let (Some((rf, _, _)), Some((rt, _, _))) = (own(conv, key), own(conv, target)) else { continue };
+            local.evaluations += 1;
+            let mut qv: ScaledQuantity = Quantity::new(Value::Number(Number::Regular(2.0)), Some(key.clone()));
+            let expect = 2.0 * rf / rt;
+            match qv.convert(target, conv) {
+                Ok(()) => {
+                    let got = value_parts(qv.value()).first().copied().unwrap_or(f64::NAN);
+                    if !close(got, expect, 1e-9, 1e-300) {
+                        out.push(Violation::new(
+                            "a key looked up on one converter is answered with another converter's unit",
+                            format!("round {round}: 2 {key} -> {target} on the {} converter gave {got:?}, its own unit table gives {expect:?}", if std::ptr::eq(conv, a) { "bundled" } else { "re-ratioed" }),
+                            json!({"kind": "alternation", "key": key}),
+                        ));
+                        return;
+                    }
+                }
+                Err(e) => {
+                    out.push(Violation::new("conversion of a known unit failed", format!("2 {key} -> {target}: {e}"), json!({"kind": "alternation", "key": key})));
+                    return;
+                }
+            }
+        }
+    }
 }
 
 fn build_env_with(conv: Converter) -> Env {
@@ -541,6 +618,51 @@ pub fn run(tier: Tier) {
     } else {
         c.note("units/spanish.toml could not be layered over the bundled units; the layered-converter part was skipped");
     }
+    // pair and triple laws on a converter with extra units on the scale of existing ones (kelvin, rankine)
+    if let Some(x) = extra_units_converter() {
+        let e2 = Arc::new(build_env_with(x));
+        let temps: Vec<usize> = (0..e2.units.len()).filter(|&i| e2.units[i].physical_quantity == PhysicalQuantity::Temperature).collect();
+        let nt = temps.len();
+        let vals = [-40.0, 0.0, 32.0, 100.0, 180.0, 451.0];
+        let e3 = e2.clone();
+        let t3 = temps.clone();
+        sweep("C09 temperature pairs and triples on the layered converter (bundled + kelvin, rankine)", (nt * nt * nt * vals.len()) as u64, move |idx| {
+            let idx = idx as usize;
+            let (k, rest) = (idx % vals.len(), idx / vals.len());
+            vcase("pair (extra units layer)", e3.units[t3[rest / (nt * nt)]].symbol(), e3.units[t3[rest % nt]].symbol(), &format!("{:?}", vals[k]))
+        }, |idx, local| {
+            let idx = idx as usize;
+            let (k, rest) = (idx % vals.len(), idx / vals.len());
+            let (a, b, c3) = (temps[rest / (nt * nt)], temps[(rest / nt) % nt], temps[rest % nt]);
+            let mut out = Vec::new();
+            if b == 0 || b == a {
+                check_pair(&e2, a, c3, vals[k], &mut out, local);
+            }
+            check_triple(&e2, a, b, c3, vals[k], &mut out, local);
+            local.nontrivial += 1;
+            out
+        });
+        if c.has_violations() {
+            return;
+        }
+    } else {
+        c.note("the layer with kelvin and rankine could not be built; that part was skipped");
+    }
+    // the same keys on two converters that disagree about them, alternately
+    if let Some(b) = reratio_converter() {
+        let a = Converter::bundled();
+        sweep("C09 alternating lookups of every key on two converters with the same keys and different ratios", 1, |_| json!({"kind": "alternation"}), move |_, local| {
+            let mut out = Vec::new();
+            check_alternation(&a, &b, &mut out, local);
+            local.nontrivial += 1;
+            out
+        });
+        if c.has_violations() {
+            return;
+        }
+    } else {
+        c.note("the extend-only layer could not be built; the alternation part was skipped");
+    }
     let e = env.clone();
     sweep("C09 failure matrix and ScaledRecipe::convert", 2, |i| json!({"kind": if i == 0 { "failure matrix" } else { "recipes" }}), |idx, local| {
         let mut out = Vec::new();
@@ -575,6 +697,25 @@ pub fn replay(case: &J) -> Vec<Violation> {
                     check_pair(&env, i, j, num(&case["value"]), &mut out, &mut local);
                 } else if env.conv.convert(ConvertValue::Number(1.0), ConvertUnit::Unit(&env.units[i]), ConvertTo::Unit(ConvertUnit::Unit(&env.units[j]))).is_ok() {
                     out.push(Violation::new("cross-quantity conversion succeeded", "", case.clone()));
+                }
+            }
+        }
+        "alternation" => {
+            if let Some(b) = reratio_converter() {
+                check_alternation(&Converter::bundled(), &b, &mut out, &mut local);
+            }
+        }
+        "pair (extra units layer)" => {
+            if let Some(x) = extra_units_converter() {
+                let e2 = build_env_with(x);
+                let pos = |sym: &str| e2.units.iter().position(|u| u.symbol() == sym);
+                if let (Some(i), Some(j)) = (pos(case["from"].as_str().unwrap_or("")), pos(case["to"].as_str().unwrap_or(""))) {
+                    check_pair(&e2, i, j, num(&case["value"]), &mut out, &mut local);
+                    for k in 0..e2.units.len() {
+                        if e2.units[k].physical_quantity == e2.units[i].physical_quantity {
+                            check_triple(&e2, i, k, j, num(&case["value"]), &mut out, &mut local);
+                        }
+                    }
                 }
             }
         }
